@@ -17,7 +17,7 @@ pub fn unroll(rule: Rule) -> Rule {
         expr: expr.map_bottom_up(|expr| match expr {
             #[cfg(not(feature = "grammar-extras"))]
             Expr::RepOnce(expr) => Expr::Seq(expr.clone(), Box::new(Expr::Rep(expr))),
-            Expr::RepExact(expr, num) => (1..num + 1)
+            Expr::RepExact(expr, num) => (1..=num)
                 .map(|_| *expr.clone())
                 .rev()
                 .fold(None, |rep, expr| match rep {
@@ -25,9 +25,9 @@ pub fn unroll(rule: Rule) -> Rule {
                     Some(rep) => Some(Expr::Seq(Box::new(expr), Box::new(rep))),
                 })
                 .unwrap(),
-            Expr::RepMin(expr, min) => (1..min + 2)
+            Expr::RepMin(expr, min) => (0..=min)
                 .map(|i| {
-                    if i <= min {
+                    if i < min {
                         *expr.clone()
                     } else {
                         Expr::Rep(expr.clone())
@@ -39,7 +39,7 @@ pub fn unroll(rule: Rule) -> Rule {
                     Some(rep) => Some(Expr::Seq(Box::new(expr), Box::new(rep))),
                 })
                 .unwrap(),
-            Expr::RepMax(expr, max) => (1..max + 1)
+            Expr::RepMax(expr, max) => (1..=max)
                 .map(|_| Expr::Opt(expr.clone()))
                 .rev()
                 .fold(None, |rep, expr| match rep {
@@ -47,7 +47,7 @@ pub fn unroll(rule: Rule) -> Rule {
                     Some(rep) => Some(Expr::Seq(Box::new(expr), Box::new(rep))),
                 })
                 .unwrap(),
-            Expr::RepMinMax(expr, min, max) => (1..max + 1)
+            Expr::RepMinMax(expr, min, max) => (1..=max)
                 .map(|i| {
                     if i <= min {
                         *expr.clone()
